@@ -145,8 +145,19 @@ func runC15(c *Ctx) {
 		return true
 	})
 	c.fam("exhaustive-uri", "maxlen", umax)
+	// every code point whose LOW BYTE is an ASCII character NormalizeURI leaves alone (a byte-wise test on a rune would
+	// let them through raw), sampled: all of U+0080..U+FFFF with such a low byte, stepping through the high byte
+	for hi := rune(1); hi < 0x110; hi++ {
+		for _, lo := range []rune{'-', '&', '#', '/', 'a', 'Z', '0', '~', '_', '%', '.', '!'} {
+			r := hi<<8 | lo
+			if r >= 0xD800 && r < 0xE000 {
+				continue
+			}
+			c15uri(c, corr, orc, []byte("/p/"+string(r)+"x"), "low-byte-safe-code-points")
+		}
+	}
 	n := c.N(30000, 600000)
-	emailPieces := []string{"a", "b1", "-", ".", "@", "a@b", ".c", "a-b", "-a", "a-", strings.Repeat("x", 62), strings.Repeat("y", 63), strings.Repeat("z", 64), "_", "+", "!", "é", " ", "<", ">", "http:", "mailto:", "a+b.c-d:", "%41", "%", "%zz", "%4", "#", "?q=1&r=2", "(", ")", "'", "\"", "\\", "\x7f", "\x00", "ö", "\xf0\x9f\x98\x80", "\xe2\x82"}
+	emailPieces := []string{"a", "b1", "-", ".", "@", "a@b", ".c", "a-b", "-a", "a-", strings.Repeat("x", 62), strings.Repeat("y", 63), strings.Repeat("z", 64), "_", "+", "!", "é", " ", "<", ">", "http:", "mailto:", "a+b.c-d:", "%41", "%", "%zz", "%4", "#", "?q=1&r=2", "(", ")", "'", "\"", "\\", "\x7f", "\x00", "ö", "\xf0\x9f\x98\x80", "\xe2\x82", "\xe4\xb8\xad", "\xe2\x80\xa6", "\xc4\xa3", "\xf0\x9f\xa4\xa3", "\xe2\x81\xbf", "\xe4\xb8\xa5"}
 	for i := 0; i < n; i++ {
 		rng := newRng(c.Seed, "c15-uri", i)
 		var sb strings.Builder
